@@ -4,13 +4,15 @@ proof : Properties/C30.v — codegen_order_independent (the Symbols of every fra
         are the same for every iteration order of branch_update's store set),
         emission_order_independent (pull_dependencies / pop_assign_tracking / dump_stores as
         functions of the set order), sorted_hides_order.
-T4    : gen/scope_iterorder.py scans compiler.py, idtracking.py, meta.py, nodes.py of the current
+T4    : gen/scope_iterorder.py scans compiler.py, idtracking.py, meta.py, nodes.py, ext.py, optimizer.py,
+        parser.py, visitor.py of the current
         source for every order-revealing iteration over a set-typed expression and emits a Coq
         table; obligations: every site is sorted() or one of the three sites the model accounts
         for, and those three are still present.
 tie / oracle: generated templates (statement trees of the C03 generator + text templates with
         tuple unpacking, branch stores, imports, macros with special parameters, many filters and
-        tests, includes and scoped blocks inside loops) compiled with Environment.compile(raw=True)
+        tests, includes and scoped blocks inside loops, trans blocks with several free variables, do /
+        debug / loop controls; environments with the i18n, do, loopcontrols and debug extensions) compiled with Environment.compile(raw=True)
         in subprocesses under 4 (quick) / 16 PYTHONHASHSEED values, in sync, async, sandboxed, native and
         async+sandboxed environments: byte-identical source.
 """
@@ -31,7 +33,7 @@ RULE = ("templates: statement trees of the C03 generator (all constructs) and te
 CHILD = r"""
 import sys, json, hashlib
 import jinja2, jinja2.sandbox, jinja2.nativetypes
-EXT = ["jinja2.ext.loopcontrols", "jinja2.ext.do"]
+EXT = ["jinja2.ext.loopcontrols", "jinja2.ext.do", "jinja2.ext.i18n", "jinja2.ext.debug"]
 ENVS = {"sync": jinja2.Environment(extensions=EXT),
         "async": jinja2.Environment(extensions=EXT, enable_async=True),
         "sandbox": jinja2.sandbox.SandboxedEnvironment(extensions=EXT),
@@ -58,7 +60,7 @@ json.dump(out, sys.stdout)
 CHILD_SRC = r"""
 import sys, json
 import jinja2, jinja2.sandbox, jinja2.nativetypes
-EXT = ["jinja2.ext.loopcontrols", "jinja2.ext.do"]
+EXT = ["jinja2.ext.loopcontrols", "jinja2.ext.do", "jinja2.ext.i18n", "jinja2.ext.debug"]
 mode, src = json.load(sys.stdin)
 env = {"sync": lambda: jinja2.Environment(extensions=EXT),
        "async": lambda: jinja2.Environment(extensions=EXT, enable_async=True),
@@ -85,7 +87,27 @@ class TextGen:
 
     def piece(self, depth=2):
         r = self.r
-        k = r.randrange(13)
+        k = r.randrange(16)
+        if k == 13:
+            # trans block with several free variables (the i18n extension builds the gettext call)
+            xs = self.ids(r.randint(2, 5))
+            decl = ""
+            if r.random() < 0.4:
+                decl = " " + ", ".join(f"{x}={r.choice(IDS)}" for x in r.sample(xs, r.randint(1, len(xs))))
+            body = " ".join("{{ " + x + " }}" for x in xs)
+            if r.random() < 0.4:
+                ys = self.ids(r.randint(1, 4))
+                cnt = r.choice(xs)
+                body += "{% pluralize " + cnt + " %}" + " ".join("{{ " + y + " }}" for y in ys + [cnt])
+                decl = decl or (" " + cnt + "=" + r.choice(IDS))
+                if cnt + "=" not in decl:
+                    decl += ", " + cnt + "=" + r.choice(IDS)
+            return "{% trans" + decl + " %}" + body + "{% endtrans %}"
+        if k == 14:
+            return "{% do " + r.choice(IDS) + ".append(" + r.choice(IDS) + ") %}" + ("{% debug %}" if r.random() < 0.3 else "")
+        if k == 15:
+            inner = self.piece(depth - 1) if depth > 0 else "{{ loop.index }}"
+            return "{% for " + r.choice(IDS) + " in " + r.choice(IDS) + " %}{% if " + r.choice(IDS) + " %}{% break %}{% endif %}" + inner + "{% continue %}{% endfor %}"
         if k == 11:
             # one assignment whose tuple target refers to several namespace objects (and plain names)
             xs = self.ids(r.randint(2, 4))
